@@ -10,7 +10,8 @@
 (* driver formats each one and validates the trace Original -> Format ->   *)
 (* Format against Format.tla (same syntax tree, same comments, idempotent).*)
 (* A text that the parser rejects drops out (the property is about         *)
-(* programs that parse).                                                   *)
+(* programs that parse).  A second space, further down: every form of      *)
+(* expression in every expression position.                                *)
 (***************************************************************************)
 EXTENDS Naturals, Sequences, TLC, Json
 
@@ -67,6 +68,37 @@ Text(h, b, d) ==
                   [] d = "both"     -> h[2] \o "# c1\n" \o h[2] \o b \o " # c2\n"
     IN h[1] \o body \o h[3]
 
+(***************************************************************************)
+(* Expression positions: every form of expression (Exprs) in every place   *)
+(* an expression can stand (Contexts: `$E` marks the place), with and      *)
+(* without a trailing comment.                                             *)
+(***************************************************************************)
+Exprs == {
+    "1", "-1", "1.5", "true", "null", "x", "'s'", "\"d\"", "r'raw'", "'{x}'", "'{x:>5}'", "'a{x}b{y}'", "'it''s'",
+    "{a: 1}", "{x, y}", "{}", "[1, 2]", "[]", "(1, 2)", "()", "(x)", "(1,)", "((x))", "(-1)",
+    "g x", "g(x)", "g()", "g x, y", "x.y", "x.y()", "x.y 1", "x.y.z.w()", "x[0]", "x[1..]", "x?.y", "x.'k'", "x.y[0].z",
+    "|a| a", "|| 1", "|a, b| a + b", "|a| |b| a", "1..2", "1..=x", "(1..2)", "x + 1", "x + -1", "x - -1", "-x", "-(x + 1)", "not x",
+    "x and y", "x or y", "x == 1", "1 < x < 3", "x * (y + 1)", "(x + y) * 2", "x -> g", "x % 2 ^ 3",
+    "if a then b", "if a then b else c", "yield 1", "x = 1", "x += 1", "koto.type x", "g |a| a", "g {a: 1}", "g [1]", "g (1, 2)",
+    "x.each(|a| a).to_tuple()", "x.keep |a| a > 1" }
+
+Contexts == {
+    "z = $E\n", "z = ($E)\n", "print $E\n", "print($E)\n", "g $E, 1\n", "g 1, $E\n", "g(1, $E)\n", "g($E, 1)\n", "x.m $E\n", "x.m($E)\n",
+    "[$E]\n", "[1, $E]\n", "[$E, 1]\n", "($E, 1)\n", "(1, $E)\n", "{k: $E}\n", "{k: $E, j: 1}\n", "m =\n  k: $E\n  j: 2\n",
+    "z = $E + 1\n", "z = 1 + $E\n", "z = 2 * $E\n", "z = -$E\n", "z = not $E\n", "z = $E and y\n", "z = y or $E\n", "z = $E == y\n",
+    "z = x[$E]\n", "z = x[$E..]\n", "z = '{$E}'\n", "z = 'a{$E}b'\n", "z = $E..10\n", "z = 0..$E\n",
+    "if $E\n  1\n", "if $E then 1 else 2\n", "z = if x then $E else 2\n", "z = if x then 1 else $E\n", "while $E\n  1\n", "for v in $E\n  1\n",
+    "match $E\n  1 then 2\n", "match x\n  1 then $E\n  else 2\n", "match x\n  y if $E then 1\n", "switch\n  $E then 1\n  else 2\n",
+    "f = |a = $E| a\n", "f = || $E\n", "return $E\n", "throw $E\n", "yield $E\n", "assert $E\n", "assert_eq $E, 1\n", "debug $E\n",
+    "x.y = $E\n", "x[0] = $E\n", "x += $E\n", "a, b = $E, 1\n", "a, b = 1, $E\n", "export z = $E\n", "let z: Any = $E\n",
+    "$E -> g\n", "x -> $E\n", "z = ($E).y\n", "z = ($E)()\n", "z = ($E)[0]\n", "try\n  $E\ncatch e\n  1\n" }
+
+RECURSIVE Subst(_, _)
+Subst(c, e) ==      \* replace the first "$E" in c by e
+    IF Len(c) < 2 THEN c
+    ELSE IF SubSeq(c, 1, 2) = "$E" THEN e \o SubSeq(c, 3, Len(c))
+    ELSE SubSeq(c, 1, 1) \o Subst(SubSeq(c, 2, Len(c)), e)
+
 \* the space contains the shapes the block rules of the formatter distinguish
 Covered == /\ \E h \in Headers : h[1] = "f = |x|\n"
            /\ {"{a: 1}", "a: 1", "|a| a", "(x)"} \subseteq Bodies
@@ -76,4 +108,5 @@ Init == phase = "emit"
 Next == /\ phase = "emit" /\ phase' = "done"
         /\ Assert(Covered, "the shape space lost a distinguished shape")
         /\ PrintT(<<"SHAPES", ToJson({[h |-> h[1], b |-> b, d |-> d, text |-> Text(h, b, d)] : h \in Headers, b \in Bodies, d \in Decorations})>>)
+        /\ PrintT(<<"POSITIONS", ToJson([c |-> Contexts, e |-> Exprs])>>)
 =============================================================================
